@@ -154,7 +154,9 @@ func scenarioC02(x *runner.X) {
 	if !all && len(order) > 14*nClients {
 		order = order[:14*nClients]
 	}
-	x.Sim(runner.SimOpts{Phase: "server", Cfg: dsim.Config{MaxSteps: 20000000, MaxSimTime: 10 * time.Hour}}, func() {
+	stmtYields := t.Bool(0.5) // statement-level pre-emption inside epoch.go / storage.go (node reads)
+	x.Note("statement_yields", stmtYields)
+	x.Sim(runner.SimOpts{Phase: "server", Cfg: dsim.Config{MaxSteps: 40000000, MaxSimTime: 10 * time.Hour, StmtYields: stmtYields}}, func() {
 		s := dsim.Active()
 		multi := NewMultiEpoch(&Options{EpochSearchConcurrency: conc})
 		for _, lw := range loaded {
